@@ -233,7 +233,9 @@ func (ex *Exec) atCallObligations(p *Path, name string, args []Value, pos token.
 			}
 			p.names[k] = a
 		}
+		ex.evaluatingAtCall = true
 		g := ex.evalClause(p, ac.Clause.E, false)
+		ex.evaluatingAtCall = false
 		for k, o := range saved {
 			if o == nil {
 				delete(p.names, k)
